@@ -49,6 +49,9 @@ type Program struct {
 	ByPath map[string]*packages.Package // all packages reachable (import path -> pkg)
 	Repo   string
 	Whole  bool // whole module loaded from source (thorough)
+	// Override substitutes behaviour-preserving normal forms (helpers inlined) of packages during the
+	// fallback evaluation of a property (import path -> variant).
+	Override map[string]*packages.Package
 }
 
 // Ctx is the state of one check run.
@@ -132,6 +135,9 @@ func (p *Program) Pkg(rel string) *packages.Package {
 		full += "/" + rel
 	}
 	pk := p.ByPath[full]
+	if v := p.Override[full]; v != nil {
+		pk = v
+	}
 	if pk == nil || len(pk.Syntax) == 0 {
 		return nil
 	}
@@ -201,6 +207,53 @@ func (c *Ctx) Check(ok bool, rule, construct string, pos token.Pos, detail strin
 }
 
 func (c *Ctx) Analysed(fn string) { c.Funcs[fn] = true }
+
+// Mark / Rollback / HoldSince make a group of obligations transactional: a rule can be evaluated on
+// the tree as written and, when something does not hold, re-evaluated on a behaviour-preserving
+// normal form (helpers inlined); the second result replaces the first only when it holds entirely.
+type Mark struct {
+	n    int
+	keys map[string]int
+}
+
+func (c *Ctx) Mark() Mark {
+	k := make(map[string]int, len(c.keys))
+	for a, b := range c.keys {
+		k[a] = b
+	}
+	return Mark{n: len(c.Obs), keys: k}
+}
+
+// Dropped is what a Rollback removed; Restore puts it back.
+type Dropped struct {
+	obs  []*Obligation
+	keys map[string]int
+}
+
+func (c *Ctx) Rollback(m Mark) Dropped {
+	d := Dropped{obs: append([]*Obligation(nil), c.Obs[m.n:]...), keys: c.keys}
+	c.Obs = c.Obs[:m.n]
+	c.keys = m.keys
+	return d
+}
+
+// Restore re-appends obligations removed by Rollback (after rolling back the later attempt).
+func (c *Ctx) Restore(d Dropped) {
+	c.Obs = append(c.Obs, d.obs...)
+	c.keys = d.keys
+}
+
+func (c *Ctx) HoldSince(m Mark) bool {
+	for _, o := range c.Obs[m.n:] {
+		if o.Status != Holds {
+			return false
+		}
+	}
+	return true
+}
+
+// Note records a free-text note in the evidence.
+func (c *Ctx) Note(s string) { c.Notes = append(c.Notes, s) }
 
 // ---------------------------------------------------------------- known findings
 
